@@ -107,9 +107,25 @@ Definition reason_b (t : tin) (out : list nat) (f : feat) (j : nat) : bool :=
                      (t_filters t))                           (* too associated with a better one *)
   end.
 
+(* association measures (not the outlier-screening gates), and the last of them *)
+Definition assoc_idx (ms : list mspec) : list nat :=
+  filter (fun j => negb (m_gate (nth j ms dflt_m))) (seq 0 (List.length ms)).
+
+Definition last_assoc (ms : list mspec) : option nat :=
+  match rev (assoc_idx ms) with j :: _ => Some j | [] => None end.
+
+(* the feature is screened out by a gate: its share of outliers is not below the threshold *)
+Definition gate_fails (t : tin) (f : feat) : bool :=
+  existsb (fun j => let m := nth j (t_ms t) dflt_m in
+                    m_gate m && match nth_error (f_raw f) j with
+                                | Some r => negb (r_val r <? m_thresh m)
+                                | None => false end)
+          (seq 0 (List.length (t_ms t))).
+
 Definition maximal_b (t : tin) (out : list nat) : bool :=
   forallb (fun f => memn (f_id f) out
                     || negb (base_ok (t_n t) (t_tnan t) (t_tmode t) f)
+                    || gate_fails t f
                     || forallb (reason_b t out f) (seq 0 (List.length (t_ms t))))
           (t_feats t).
 
@@ -117,11 +133,11 @@ Definition type_ok (tc : tcase) : bool :=
   let t := tc_in tc in
   let out := tc_out tc in
   nodupn out && forallb (fun i => memn i (map f_id (t_feats t))) out &&
-  match t_ms t with
-  | [] => true
-  | _ =>
-      sorted_spec t (List.length (t_ms t) - 1) out
-      && Nat.leb (List.length out) (t_nbest t * List.length (t_ms t))
+  match last_assoc (t_ms t) with
+  | None => true                       (* no association measure requested for this dtype *)
+  | Some jl =>
+      sorted_spec t jl out
+      && Nat.leb (List.length out) (t_nbest t * List.length (assoc_idx (t_ms t)))
       && independent_b t out
       && maximal_b t out
   end.
@@ -137,8 +153,9 @@ Definition C14_b (c : c14case) : bool :=
   end.
 
 (* 0 agree & holds | 1 disagree | 2 property predicate fails | 4 agree up to an exact tie *)
+(* a disagreement with the model is reported (1) even when the predicate also fails for a known
+   reason: otherwise a regression on a configuration hit by a known finding would be masked *)
 Definition verdict (c : c14case) : nat :=
-  if negb (C14_b c) then 2%nat
-  else if agree c then 0%nat
-  else if existsb (fun tc => has_ties (tc_in tc)) (c_types c) then 4%nat
+  if agree c then (if C14_b c then 0%nat else 2%nat)
+  else if existsb (fun tc => has_ties (tc_in tc)) (c_types c) then (if C14_b c then 4%nat else 2%nat)
   else 1%nat.
